@@ -447,15 +447,28 @@ class C12(core.Check):
         mods: Dict[str, list] = {}
         dflt = None
         merges: List[list] = []
+        n_vertices = 0  # vertices the last assembly must have created: one per (point, slave patches at the corner)
         out = []
+
+        def corner_keys(i: int):
+            spec = specs[i]
+            pat = spec.get("patches", {})
+            slaves = {m[1] for m in merges}
+            side = ["front", "right", "back", "left"]  # blockMesh: corner c of a face lies on sides c and c-1
+            keys = []
+            for c in range(8):
+                at = {pat.get("bottom" if c < 4 else "top"), pat.get(side[c % 4]), pat.get(side[(c % 4 + 3) % 4])}
+                keys.append((fmt(pos[i][c]), tuple(sorted(x for x in at if x in slaves))))
+            return keys
         for st, o in zip(case["steps"], obs):
             weird_before = dup or twice
 
             def do_assemble():
-                nonlocal asm_ops, assembled, pending
+                nonlocal asm_ops, assembled, pending, n_vertices
                 asm_ops = [i for i in depot if i not in deleted]
                 assembled = len(asm_ops) > 0
                 pending = False
+                n_vertices = len({k for i in asm_ops for k in corner_keys(i)})
 
             if st[0] == "add":
                 if st[1] in depot:
@@ -521,6 +534,7 @@ class C12(core.Check):
                     "mods": {k: [v[0], list(v[1])] for k, v in mods.items()},
                     "dflt": dflt,
                     "merges": [list(m) for m in merges],
+                    "n_vertices": n_vertices,
                 }
             )
         return out
@@ -743,6 +757,24 @@ class C12(core.Check):
                 out.append({"site": "Mesh.write:unparsable-file", "what": f"call {n}: {e}"})
                 since, last_text = [], text
                 continue
+            written_names = [p["name"] for p in parsed["patches"]]
+            for name in sh["mods"]:
+                if name not in written_names:
+                    out.append({"site": "PatchList.modify:modified-patch-not-written", "what": f"call {n}: {name} was modified but is not in boundary ({written_names})"})
+                    break
+            for p in parsed["patches"]:
+                if len({frozenset(x) for x in p["sides"]}) != len(p["sides"]):
+                    out.append({"site": "Patch.add_side:face-listed-twice", "what": f"call {n}: patch {p['name']} lists {p['sides']}"})
+                    break
+            if not (sh["pending"] or sh["moved"] or sh["weird"]) and len(parsed["vertices"]) != sh["n_vertices"]:
+                out.append(
+                    {
+                        "site": "VertexList.add:vertex-count",
+                        "what": f"call {n}: {len(parsed['vertices'])} vertices written, {sh['n_vertices']} distinct (point, slave patches) corners",
+                        "observed": len(parsed["vertices"]),
+                        "expected": sh["n_vertices"],
+                    }
+                )
             for p in parsed["patches"]:
                 if p["name"] in sh["mods"]:
                     kind, settings = sh["mods"][p["name"]]
